@@ -235,7 +235,7 @@ def check_C08(tier):
 
 
 def check_C09(tier):
-    return std_chess_check("C09", tier, ["att"], extra=lambda ck, res: engine_games(ck, "C09", tier, {"in-check"})).finish()
+    return std_chess_check("C09", tier, ["att", "tree"], extra=lambda ck, res: engine_games(ck, "C09", tier, {"in-check"})).finish()
 
 
 def check_C15(tier):
@@ -1213,8 +1213,12 @@ def check_C12(tier):
                     steps.append(ul.sync())
                 steps += [S("stop"), ul.wait("bestmove", 3000)]
             else:
-                steps += [S("go ponder wtime 400 btime 400"), ul.quiet("bestmove", 50)]
-                if rng.random() < 0.5:
+                # a ponder search carries the limits of the search it becomes at ponderhit: the clock, or a depth / node /
+                # move-time limit (then "once the limit is reached" applies from the ponderhit on)
+                pgo = rng.choice(["go ponder wtime 400 btime 400", "go ponder wtime 400 btime 400", "go ponder depth 3", "go ponder nodes 2000",
+                                  "go ponder movetime 60", "go ponder depth 2 wtime 400 btime 400"])
+                steps += [S(pgo), ul.quiet("bestmove", rng.choice([50, 150]))]
+                if rng.random() < 0.6:
                     steps += [S("ponderhit"), ul.wait("bestmove", 3000)]
                 else:
                     steps += [S("stop"), ul.wait("bestmove", 3000)]
@@ -1239,6 +1243,23 @@ def check_C12(tier):
                            S("setoption name %s value %s" % (name, val)), ul.sync(), S("setoption name Print Config"), ul.sync()],
                 option=name, value=val)
     res = ul.run_sessions(scripts)
+    # wall-clock clauses (answer within a time-out, prompt stop) are confirmed by running the session again, alone,
+    # before they count: a loaded machine must not raise an alarm
+    def timing_suspect(r):
+        ev = r["events"]
+        if any(e["ev"] == "timeout" for e in ev) or r["rc"] == -9:
+            return True
+        for st_ in [e for e in ev if e["ev"] == "in" and e.get("line") == "stop"]:
+            bm = [e for e in ev if e["ev"] == "out" and e.get("line", "").startswith("bestmove") and e["t_ms"] >= st_["t_ms"]]
+            if bm and bm[0]["t_ms"] - st_["t_ms"] > 500:
+                return True
+        return False
+    for sc in scripts:
+        if timing_suspect(res[sc["id"]]):
+            again = ul.run_sessions([sc], procs=1, timeout=120)[sc["id"]]
+            if not timing_suspect(again):
+                res[sc["id"]] = again
+                ck.notes.append("session %d re-run alone after a time-out under load: passed" % sc["id"])
 
     def disc(kind, sig, sid, detail):
         ck.discs.append({"prop": "C12", "kind": kind, "sig": sig, "fen": "", "detail": detail,
@@ -1420,6 +1441,12 @@ def check_C16(tier):
             scripts.append({"id": sid, "name": "malformed/" + ctx, "steps": steps})
             meta[sid] = {"mal": m, "ctx": ctx, "fen": fen}
     res3 = ul.run_sessions(scripts)
+    for sc in scripts:         # time-outs are confirmed by a second run of the session alone
+        r = res3[sc["id"]]
+        if r["rc"] == -9 or any(e["ev"] == "timeout" for e in r["events"]):
+            again = ul.run_sessions([sc], procs=1, timeout=120)[sc["id"]]
+            if again["rc"] == 0 and not any(e["ev"] == "timeout" for e in again["events"]):
+                res3[sc["id"]] = again
 
     def disc(kind, sig, sid, detail):
         ck.discs.append({"prop": "C16", "kind": kind, "sig": sig, "fen": "", "detail": detail,
@@ -1521,7 +1548,7 @@ def check_C19(tier):
             disc("book-content", "content/" + label, {"missing_positions": len(missing), "extra_positions": len(extra), "wrong_counters": len(wrong),
                                                        "example": (missing + extra + wrong)[:3]}, replay)
         seen = set()
-        for e in dump["entries"]:
+        for e in (dump.get("entries") or []):
             ms = [m["m"] for m in e["moves"]]
             if len(ms) != len(set(ms)):
                 disc("move-offered-twice", "links/duplicate/" + label, {"key": e["key"], "moves": [fenspec.mv_uci(m) for m in ms]}, replay)
